@@ -183,6 +183,10 @@ func soloMain(f flags, rest []string) int {
 	if p == nil {
 		return 2
 	}
+	if f.str("c20-solo-outcomes", "") != "" {
+		c20SoloOutcomes(t)
+		return 0
+	}
 	if f.str("gen-only", "") != "" {
 		c := p.Gen(t, &ph)
 		b, _ := json.Marshal(SoloResult{Case: c.Describe(), Tape: t.Rec})
@@ -298,6 +302,9 @@ func replayMain(path string) int {
 const mapOrderRetries = 20
 
 func reproduces(rf *ReplayFile, path string) (bool, string) {
+	if rf.Crash == "race" {
+		return reproducesRace(rf)
+	}
 	attempts := 1
 	if strings.Contains(rf.Clause, "map-order") {
 		attempts = mapOrderRetries
@@ -360,6 +367,8 @@ func tierConfig(p Property, tier string) tierCfg {
 	}
 	return c
 }
+
+var raceInfo map[string]interface{}
 
 type candidate struct {
 	phase, idx int
@@ -502,6 +511,19 @@ func superviseCheck(p Property, tier string, seed uint64) int {
 		rf = shrinkCrash(rf, dir)
 		violations = append(violations, rf)
 		confirmed++
+	}
+
+	var race *raceStageResult
+	if p.ID() == "C20" {
+		race = raceStage(tier, seed, dir, time.Now().Add(cfg.wallCap/2))
+		if race.HarnessErr != "" {
+			fmt.Println("HARNESS-ERROR", race.HarnessErr)
+			return 2
+		}
+		violations = append(violations, race.Violations...)
+		merged.Add("race_stage.worlds", int64(race.Worlds))
+		raceInfo = map[string]interface{}{"ran": race.Ran, "worlds_run_in_parallel_goroutines": race.Worlds, "race_worker_processes": race.Workers, "wall_s": race.WallS,
+			"note": "free-running goroutines under the Go race detector; interleavings are not decided by the simulator in this stage (see DESIGN.md 3.11)"}
 	}
 
 	// write, confirm and report violations
